@@ -1,5 +1,6 @@
 (* C02 -- lemmas.  The oracles (property package, third-party solver) are arbitrary; what is assumed
    about them is collected in [contracts]. *)
+From Coq Require Import Sorted.
 From V Require Import Common.NumFacts C02.Model.
 Open Scope Q_scope.
 
@@ -264,20 +265,6 @@ Proof. reflexivity. Qed.
 Lemma qsum_cons x l : qsum (x :: l) = x + qsum l.
 Proof. reflexivity. Qed.
 
-Lemma xsum_single_row f (m : pmol) p v T P k :
-  zero_at_zero f -> homog f -> ~ k == 0 ->
-  xsum f (pm_div (map (fun pv : phase * vec => (fst pv, if (fst pv =? p)%nat then v else vzero (length (snd pv)))) m) k) T P * k
-  == qsum (map (fun pv : phase * vec => if (fst pv =? p)%nat then f (fst pv) v T P else 0) m).
-Proof.
-  intros Hz Hh Hk. induction m as [|pv m IH].
-  - simpl. lra.
-  - rewrite !map_cons, pm_div_cons, xsum_cons, qsum_cons. cbn [fst snd].
-    destruct (fst pv =? p)%nat.
-    + pose proof (Hh (fst pv) v k T P Hk) as E. nra.
-    + pose proof (Hh (fst pv) (vzero (length (snd pv))) k T P Hk) as E.
-      pose proof (Hz (fst pv) (length (snd pv)) T P) as Z0. nra.
-Qed.
-
 Lemma qsum_vzero n : qsum (vzero n) == 0.
 Proof.
   induction n as [|n IH]; [reflexivity|].
@@ -287,45 +274,81 @@ Qed.
 Lemma pm_total_cons pv m : pm_total (pv :: m) = qsum (snd pv) + pm_total m.
 Proof. reflexivity. Qed.
 
-Lemma pm_total_single_row (m : pmol) p v :
-  pm_total (map (fun pv : phase * vec => (fst pv, if (fst pv =? p)%nat then v else vzero (length (snd pv)))) m)
-  == qsum (map (fun pv : phase * vec => if (fst pv =? p)%nat then qsum v else 0) m).
+Lemma pm_total_single_row (ps : list phase) p v n :
+  pm_total (map (fun q : phase => (q, if (q =? p)%nat then v else vzero n)) ps)
+  == qsum (map (fun q : phase => if (q =? p)%nat then qsum v else 0) ps).
 Proof.
-  induction m as [|pv m IH].
+  induction ps as [|q ps IH].
   - simpl. lra.
   - rewrite !map_cons, pm_total_cons, qsum_cons, IH. cbn [fst snd].
-    destruct (fst pv =? p)%nat; [lra|]. rewrite qsum_vzero. lra.
+    destruct (q =? p)%nat; [lra|]. rewrite qsum_vzero. lra.
 Qed.
 
-Lemma xsum_single_row0 f (m : pmol) p v T P :
+Lemma xsum_single_row0 f (ps : list phase) p v n T P :
   zero_at_zero f ->
-  xsum f (map (fun pv : phase * vec => (fst pv, if (fst pv =? p)%nat then v else vzero (length (snd pv)))) m) T P
-  == qsum (map (fun pv : phase * vec => if (fst pv =? p)%nat then f p v T P else 0) m).
+  xsum f (map (fun q : phase => (q, if (q =? p)%nat then v else vzero n)) ps) T P
+  == qsum (map (fun q : phase => if (q =? p)%nat then f p v T P else 0) ps).
 Proof.
-  intros Hz. induction m as [|pv m IH].
+  intros Hz. induction ps as [|q ps IH].
   - simpl. lra.
   - rewrite !map_cons, xsum_cons, qsum_cons, IH. cbn [fst snd].
-    destruct (fst pv =? p)%nat eqn:E.
+    destruct (q =? p)%nat eqn:E.
     + apply Nat.eqb_eq in E. rewrite E. lra.
-    + pose proof (Hz (fst pv) (length (snd pv)) T P) as Z0. rewrite Z0. lra.
+    + pose proof (Hz q n T P) as Z0. rewrite Z0. lra.
 Qed.
 
-Lemma qsum_indicator (m : pmol) p c :
-  NoDup (map fst m) -> In p (map fst m) ->
-  qsum (map (fun pv : phase * vec => if (fst pv =? p)%nat then c else 0) m) == c.
+Lemma qsum_indicator (ps : list phase) p c :
+  NoDup ps -> In p ps ->
+  qsum (map (fun q : phase => if (q =? p)%nat then c else 0) ps) == c.
 Proof.
-  induction m as [|pv m IH]; intros ND I.
+  induction ps as [|q ps IH]; intros ND I.
   - destruct I.
-  - rewrite map_cons, qsum_cons. simpl in ND, I. inversion ND as [|x l NI ND']; subst.
-    destruct (fst pv =? p)%nat eqn:E.
+  - rewrite map_cons, qsum_cons. inversion ND as [|x l NI ND']; subst.
+    destruct (q =? p)%nat eqn:E.
     + apply Nat.eqb_eq in E. subst p.
-      assert (Z : qsum (map (fun pv0 : phase * vec => if (fst pv0 =? fst pv)%nat then c else 0) m) == 0).
-      { clear IH ND ND' I. induction m as [|qv m IHm]; [reflexivity|].
-        rewrite map_cons, qsum_cons. destruct (fst qv =? fst pv)%nat eqn:E2.
+      assert (Z : qsum (map (fun q0 : phase => if (q0 =? q)%nat then c else 0) ps) == 0).
+      { clear IH ND ND' I. induction ps as [|r ps IHm]; [reflexivity|].
+        rewrite map_cons, qsum_cons. destruct (r =? q)%nat eqn:E2.
         - apply Nat.eqb_eq in E2. exfalso. apply NI. simpl. now left.
         - rewrite IHm; [lra|]. intros I. apply NI. simpl. now right. }
       rewrite Z. lra.
     + destruct I as [I|I]; [apply Nat.eqb_neq in E; congruence|]. rewrite (IH ND' I). lra.
+Qed.
+
+(* phase_set yields a strictly increasing list containing exactly the given phases *)
+Lemma insert_phase_spec p l :
+  StronglySorted lt l ->
+  StronglySorted lt (insert_phase p l) /\ (forall q, In q (insert_phase p l) <-> q = p \/ In q l).
+Proof.
+  induction l as [|a l IH]; intros S; simpl.
+  - split; [repeat constructor|]. intros q. simpl. intuition.
+  - inversion S as [|x y S' F]; subst.
+    destruct (p =? a)%nat eqn:E.
+    + apply Nat.eqb_eq in E. subst a. split; [exact S|]. intros q. simpl. intuition.
+    + destruct (p <? a)%nat eqn:L.
+      * apply Nat.ltb_lt in L. split.
+        -- constructor; [exact S|]. constructor; [exact L|].
+           rewrite Forall_forall in *. intros z Iz. specialize (F z Iz). lia.
+        -- intros q. simpl. intuition.
+      * apply Nat.ltb_ge in L. apply Nat.eqb_neq in E. destruct (IH S') as [S2 I2]. split.
+        -- constructor; [exact S2|]. rewrite Forall_forall in *. intros z Iz. apply I2 in Iz.
+           destruct Iz as [->|Iz]; [lia|now apply F].
+        -- intros q. simpl. rewrite I2. intuition.
+Qed.
+
+Lemma phase_set_spec l : StronglySorted lt (phase_set l) /\ (forall q, In q (phase_set l) <-> In q l).
+Proof.
+  induction l as [|a l [S I]]; simpl.
+  - split; [constructor|]. intuition.
+  - destruct (insert_phase_spec a (phase_set l) S) as [S2 I2]. split; [exact S2|].
+    intros q. rewrite I2, I. intuition.
+Qed.
+
+Lemma sorted_NoDup l : StronglySorted lt l -> NoDup l.
+Proof.
+  induction l as [|a l IH]; intros S; [constructor|].
+  inversion S as [|x y S' F]; subst. constructor; [|now apply IH].
+  intros I. rewrite Forall_forall in F. specialize (F a I). lia.
 Qed.
 
 Lemma qzerob_compat a b : a == b -> qzerob a = qzerob b.
@@ -372,23 +395,36 @@ Proof.
     + destruct (multi o) eqn:Mo.
       * destruct (list_eqb Nat.eqb (phases self) (phases o)); [|discriminate].
         injection H as <-. split; reflexivity.
-      * destruct (mem (target_phase (phases self) (phase1 o)) (phases self)) eqn:HP; [|discriminate].
-        injection H as <-. split; [|reflexivity].
+      * injection H as <-. split; [|reflexivity].
         destruct Wo as [Lo _]. rewrite Mo in Lo.
         destruct (pm o) as [|pv [|? ?]] eqn:Po; simpl in Lo; try discriminate.
         assert (P1 : phase1 o = fst pv) by (unfold phase1; now rewrite Po).
         assert (R1 : row1 o = snd pv) by (unfold row1; now rewrite Po).
-        destruct Ws as [_ NDs]. apply has_phase_In in HP.
-        apply prop_flow_eq_of; [apply (cH_homog _ C)| |]; unfold total; cbn [pm sT sP].
+        destruct Ws as [_ NDs].
+        set (ps := if mem (target_phase (phases self) (phase1 o)) (phases self) then phases self
+                   else phase_set (phases self ++ [phase1 o])).
+        assert (Hps : NoDup ps /\ In (target_phase ps (phase1 o)) ps).
+        { unfold ps. destruct (mem (target_phase (phases self) (phase1 o)) (phases self)) eqn:HP.
+          - split; [exact NDs|]. now apply has_phase_In in HP.
+          - destruct (phase_set_spec (phases self ++ [phase1 o])) as [SS II]. split; [now apply sorted_NoDup|].
+            assert (I0 : In (phase1 o) (phase_set (phases self ++ [phase1 o]))).
+            { apply II. apply in_or_app. right. now left. }
+            unfold target_phase.
+            destruct (mem (phase1 o) (phase_set (phases self ++ [phase1 o]))) eqn:M2; [exact I0|].
+            exfalso. unfold mem in M2.
+            assert (existsb (Nat.eqb (phase1 o)) (phase_set (phases self ++ [phase1 o])) = true).
+            { apply existsb_exists. exists (phase1 o). split; [exact I0|apply Nat.eqb_refl]. }
+            congruence. }
+        destruct Hps as [NDp Inp].
+        apply prop_flow_eq_of; [apply (cH_homog _ C)| |]; unfold total; cbn [pm sT sP]; fold ps.
         -- rewrite pm_total_single_row, qsum_indicator; auto.
            rewrite Po, R1. simpl. lra.
-        -- rewrite (xsum_single_row0 _ _ _ _ _ _ (cH_zero _ C)), qsum_indicator; auto.
+        -- rewrite (xsum_single_row0 _ _ _ _ _ _ _ (cH_zero _ C)), qsum_indicator; auto.
            rewrite Po, R1. simpl. rewrite P1. unfold target_phase.
-           destruct (mem (fst pv) (phases self)); [lra|]. rewrite (cH_case _ C). lra.
+           destruct (mem (fst pv) ps); [lra|]. rewrite (cH_case _ C). lra.
   - destruct (multi o) eqn:Mo.
     + destruct Wo as [Lo _]. rewrite Mo in Lo.
       destruct (pm o) as [|pv [|pv2 t]] eqn:Po; simpl in Lo; try lia.
-      destruct (mem _ _); [|discriminate].
       injection H as <-. unfold getH, prop_flow, total. cbn [pm sT sP]. rewrite Po. split; reflexivity.
     + destruct same.
       * injection H as <-. rewrite (Same eq_refl). split; reflexivity.
@@ -397,9 +433,7 @@ Qed.
 
 Lemma imol_mix_TP self ins s2 : imol_mix self ins = Ok s2 -> sT s2 = sT self /\ sP s2 = sP self.
 Proof.
-  unfold imol_mix. destruct (multi self).
-  - destruct (forallb _ (phases_of ins)); [|discriminate]. intros H; injection H as <-. auto.
-  - intros H; injection H as <-. auto.
+  unfold imol_mix. destruct (multi self); intros H; injection H as <-; auto.
 Qed.
 
 Lemma set_phases_P s chars s' : set_phases s chars = Ok s' -> sP s' = sP s.
@@ -796,3 +830,84 @@ Proof.
   pose proof Z as Z'. apply qzerob_false in Z'. rewrite Z'. cbn [bind fst].
   eexists. split; [reflexivity|]. rewrite X. field. exact Z.
 Qed.
+
+(* ------------------------------------------------------------------ totality: when the solver always answers, mixing succeeds *)
+Definition solver_total (O : oracles) : Prop := forall m x Tg P, exists T', solveH O m x Tg P = Ok T'.
+
+Lemma setH_total_lemma O s h : solver_total O -> exists s', setH O s h = (s', None).
+Proof.
+  intros Tot. unfold setH, set_with, solve_into.
+  destruct (qzerob h && isempty s); [eexists; reflexivity|].
+  destruct (Tot (pm s) h (sT s) (sP s)) as [T' E]. rewrite E.
+  destruct (multi s); eexists; reflexivity.
+Qed.
+
+Definition valid (st : store) (l : list nat) : Prop := Forall (fun i => (i < length st)%nat) l.
+
+Lemma streams_of_valid st others : valid st (streams_of st others).
+Proof.
+  unfold valid. induction others as [|o t IH]; simpl; [constructor|].
+  destruct o as [i| |]; auto.
+  destruct (nth_error st i) as [s|] eqn:E; auto.
+  destruct (isempty s); auto. constructor; auto. apply nth_error_Some. congruence.
+Qed.
+
+Lemma sget_all_valid st l : valid st l -> exists ins, sget_all st l = Ok ins /\ length ins = length l.
+Proof.
+  unfold valid. induction l as [|i l IH]; intros V; simpl.
+  - exists []. auto.
+  - inversion V as [|x y Hi V']; subst. destruct (IH V') as (ins & E & L).
+    unfold sget. destruct (nth_error st i) as [s|] eqn:N.
+    + cbn [bind]. rewrite E. cbn [bind]. exists (s :: ins). simpl. auto.
+    + apply nth_error_None in N. lia.
+Qed.
+
+Lemma valid_upd st l i s : valid st l -> valid (upd st i s) l.
+Proof. unfold valid. now rewrite upd_length. Qed.
+
+Lemma mix_total_lemma O st r others Q0 self :
+  solver_total O -> sget st r = Ok self ->
+  (forall i o, streams_of st others = [i] -> sget st i = Ok o -> multi self = true -> multi o = true ->
+               phases self = phases o) ->
+  exists st', mix_from O st r others Q0 = Ok st'.
+Proof.
+  intros Tot Sr Ph. unfold mix_from. rewrite Sr. cbn [bind].
+  pose proof (streams_of_valid st others) as V.
+  pose proof (sget_lt _ _ _ Sr) as Lr.
+  destruct (streams_of st others) as [|i [|j l]] eqn:SS.
+  - eexists; reflexivity.
+  - destruct (sget_all_valid _ _ V) as (ins & E & _). simpl in E. unfold bind in E.
+    destruct (sget st i) as [o|] eqn:So; [|discriminate]. cbn [bind].
+    assert (CL : exists s1, copy_like self o (r =? i)%nat = Ok s1).
+    { unfold copy_like. destruct (multi self) eqn:Ms.
+      - destruct (r =? i)%nat; [eexists; reflexivity|].
+        destruct (multi o) eqn:Mo; [|eexists; reflexivity].
+        rewrite (Ph i o eq_refl So eq_refl Mo), list_eqb_nat_refl. eexists; reflexivity.
+      - destruct (multi o).
+        + destruct (pm o) as [|pv [|? ?]]; eexists; reflexivity.
+        + destruct (r =? i)%nat; eexists; reflexivity. }
+    destruct CL as [s1 ->]. cbn [bind].
+    destruct (qzerob (heat_of others Q0)); [eexists; reflexivity|].
+    destruct (setH_total_lemma O s1 (getH O s1 + heat_of others Q0) Tot) as [s' ->]. eexists; reflexivity.
+  - destruct (sget_all_valid _ _ V) as (ins & E & L). rewrite E. cbn [bind].
+    destruct ins as [|s0 ins0]; [discriminate|]. cbn [minP bind].
+    rewrite (sget_upd_same' st r _ Lr). cbn [bind].
+    destruct (sget_all_valid _ _ (valid_upd st _ r (set_P self (fold_left qmin (map sP ins0) (sP s0))) V)) as (ins1 & E1 & _).
+    rewrite E1. cbn [bind].
+    assert (IM : forall a b, exists s2, imol_mix a b = Ok s2)
+      by (intros a b; unfold imol_mix; destruct (multi a); eexists; reflexivity).
+    destruct (IM (set_P self (fold_left qmin (map sP ins0) (sP s0))) ins1) as [s2 ->]. cbn [bind].
+    destruct (setH_total_lemma O s2 (sum_H O (s0 :: ins0) (heat_of others Q0)) Tot) as [s' ->].
+    eexists; reflexivity.
+Qed.
+
+(* the stub: closed statement, no hypotheses on the oracles *)
+Lemma mix_energy_stub_lemma cn hf Tref st r others Q0 st' ins s' :
+  Forall wfs st ->
+  mix_from (lin_oracles cn hf Tref) st r others Q0 = Ok st' ->
+  streams_of st others <> [] ->
+  sget_all st (streams_of st others) = Ok ins ->
+  sget st' r = Ok s' ->
+  ~ total s' == 0 ->
+  getH (lin_oracles cn hf Tref) s' == qsum (map (getH (lin_oracles cn hf Tref)) ins) + (Q0 + heats others).
+Proof. intros W. apply mix_energy_lemma; auto. apply lin_contracts. Qed.
